@@ -389,6 +389,7 @@ pub fn run(opts: &Opts) -> i32 {
         }
         r.after()
     });
+    super::c17_after::run_part(opts, &rep);
     rep.set_exhaustive(false);
     rep.require("publishes_resolved_through_an_alias", 1000);
     rep.require("rebinds_to_a_different_topic", 200);
